@@ -10,9 +10,15 @@ def run(ctx):
     r = ctx.tlc("MC_Iface", "MC_Iface.cfg", workers=16, timeout=1500, constants={"MaxOps": 4 if q else 5},
                 tag="exhaustive: 2 variables of one type, 3 methods, 1 builder")
     ctx.note("MC_Iface: %d distinct states; CallsConform VarsConform NoDangling hold" % r["distinct"])
+    rh = ctx.tlc("MC_Iface", "MC_Iface.cfg", workers=16, timeout=1500, constants={"MaxOps": 4 if q else 5, "Ops": "<- HeldOps"},
+                 tag="exhaustive with kept handles (Interface / Method values used again, also after Reset)")
+    ctx.note("MC_Iface with kept handles: %d distinct states" % rh["distinct"])
     g = ctx.tlc("MC_Iface", "Gen_Iface.cfg", workers=1, timeout=1500, constants={"MaxOps": 3 if q else 4},
                 tag="all histories to depth %d" % (3 if q else 4))
     behs = ctx.behaviours(g)
+    gh = ctx.tlc("MC_Iface", "Gen_Iface.cfg", workers=1, timeout=1500, constants={"MaxOps": 5 if q else 6, "Ops": "<- HeldOps", "V": '{"i1"}', "M": "<- M1h", "Kinds": '{"stub"}' if q else '{"stub", "apply"}', "Args": "{7}"},
+                 tag="all histories with kept handles to depth %d (one variable, two of its methods)" % (5 if q else 6))
+    behs += ctx.behaviours(gh)
     s = ctx.tlc("MC_Iface", "Sim_Iface.cfg", workers=1, timeout=1500, simulate="num=%d" % (400 if q else 6000), depth=14,
                 tag="random histories: 3 variables (2 types), 2 builders, Drop/GC at TLC-chosen points")
     behs += ctx.behaviours(s)
